@@ -120,9 +120,7 @@ const (
 	int64MaxUint32 int64 = math.MaxUint32
 
 	// float64.
-	floatMaxInt    float64 = float64(int(^uint(0) >> 1))
 	floatMinInt    float64 = float64(-maxInt - 1)
-	floatMaxUint   float64 = float64(^uint(0))
 	floatMaxUint64 float64 = math.MaxUint64
 	floatMaxInt64  float64 = math.MaxInt64
 	floatMinInt64  float64 = math.MinInt64
